@@ -9,6 +9,9 @@ ASSUMPTIONS = [
     "format entry points (orjson, msgpack mixins) run with identity transports (the C libraries are outside, see C04)",
     "schemas enumerated (vf/checks/c19.py): nested, list, dict, Optional, every member position of unions, inherited hooks, "
     "plain (non-mixin) dataclasses through codecs, ADD_SERIALIZATION_CONTEXT",
+    "dispatch through a Config field discriminator (Shape <- Circle, Sq with inherited / overridden hooks) entered through the "
+    "root's from_dict, a List[root] field, a codec for the root and the variant itself: EXACT pre/post traces (no union "
+    "speculation is involved)",
 ]
 
 HOOKS = '''
@@ -120,8 +123,36 @@ class OutM{b}:
            bcomma="" if base == "object" else ", " + base)
 
 
+def disc_prelude(base):
+    hooks = HOOKS.format(ctxarg="", ctxval="None")
+    imp = {"DataClassDictMixin": "", "DataClassORJSONMixin": "from mashumaro.mixins.orjson import DataClassORJSONMixin\n"}[base]
+    return imp + "from vf.props.c19 import LOG\n" + '''
+@dataclass
+class Shape({base}):
+    k: int = 0
+    class Config(BaseConfig):
+        discriminator = Discriminator(field="type", include_subtypes=True)
+{hooks}
+@dataclass
+class Circle(Shape):
+    type: str = "circle"
+    r: int = 0
+
+@dataclass
+class Sq(Shape):
+    type: str = "sq"
+    r: int = 1
+    @classmethod
+    def __pre_deserialize__(cls, d):
+        LOG.append(("pre_de", cls.__name__, id(d), None))
+        return d
+'''.format(base=base, hooks=hooks)
+
+
 def harnesses(tier, seed):
     hs = []
+    for base in ("DataClassDictMixin", "DataClassORJSONMixin"):
+        hs.append(gen.custom_harness("C19", "c19", Schema("disc_%s" % base[:12], "Shape", disc_prelude(base)), "disc", "", ""))
     combos = [("DataClassDictMixin", "mixin", False), ("object", "codec", False), ("DataClassDictMixin", "mixin", True),
               ("DataClassORJSONMixin", "orjson", False), ("DataClassMessagePackMixin", "msgpack", False),
               ("DataClassDictMixin", "codec", False)]
